@@ -28,6 +28,8 @@ class Mesh:
         # List of all added operations/shapes
         self.depot: List[AdditiveType] = []
         self.deleted: Set[Operation] = set()
+        # operations that assemble() converted to blocks, in the same order as blocks
+        self.assembled_operations: List[Operation] = []
 
         self.vertex_list = VertexList()
         self.edge_list = EdgeList()
@@ -126,6 +128,7 @@ class Mesh:
                 block.cell_zone = operation.cell_zone
 
                 self.block_list.add(block)
+                self.assembled_operations.append(operation)
                 self.patch_list.add(vertices, operation)
                 self.face_list.add(vertices, operation)
 
@@ -143,6 +146,7 @@ class Mesh:
     def clear(self) -> None:
         """Undoes the assemble() method; clears created blocks and other lists
         but leaves added depot items intact"""
+        self.assembled_operations.clear()
         self.vertex_list.clear()
         self.edge_list.clear()
         self.block_list.clear()
@@ -160,12 +164,9 @@ class Mesh:
         if not self.is_assembled:
             raise RuntimeError("Cannot backport non-assembled mesh")
 
-        operations = self.operations
-        blocks = self.blocks
-
-        for i, block in enumerate(blocks):
-            op = operations[i]
-
+        # deleted operations have no blocks; pair each block
+        # with the operation it was created from
+        for op, block in zip(self.assembled_operations, self.blocks):
             vertices = [vertex.position for vertex in block.vertices]
             op.bottom_face.update(vertices[:4])
             op.top_face.update(vertices[4:])
